@@ -49,7 +49,8 @@ F  == [k |-> "ko"]
 FC == [k |-> "kocut"]
 Raise(x) == [k |-> "raise", x |-> x]
 Fuel == [k |-> "fuel"]
-Abort(r) == r.k \in {"raise", "fuel"}
+KoSem == [k |-> "kosem"]          \* a constant whose evaluation fails: a semantic failure of the enclosing RULE invocation
+Abort(r) == r.k \in {"raise", "fuel", "kosem"}
 Pack(items) == IF Len(items) = 0 THEN None ELSE IF Len(items) = 1 THEN items[1] ELSE OpenL(items)
 Leave(r) == [r EXCEPT !.cut = FALSE]                        \* leaving a cut scope successfully forgets the cut
 WithDefaults(ns, e) == DefineAll(DefineAll(ns, DefsL(e), OpenL(<<>>)), Defs(e) \ DefsL(e), None)
@@ -96,6 +97,7 @@ E(e, p, ns, sd, d) ==
                        ELSE S(p + n, <<Str(SubText(p, p + n))>>, Str(SubText(p, p + n)), ns, FALSE)
     [] e.op = "dot" -> IF p < N THEN S(p + 1, <<Str(<<Inp[p + 1]>>)>>, Str(<<Inp[p + 1]>>), ns, FALSE) ELSE F
     [] e.op = "const" -> S(Skip(p), <<e.v>>, e.v, ns, FALSE)
+    [] e.op = "constbad" -> KoSem
     [] e.op = "void" -> S(Skip(p), <<>>, Unit, ns, FALSE)
     [] e.op = "fail" -> F
     [] e.op = "eof" -> IF Skip(p) = N THEN S(Skip(p), <<>>, None, ns, FALSE) ELSE F
@@ -195,7 +197,8 @@ Body(name, q, sd, d) ==
   IF d = 0 THEN Fuel ELSE
   LET rule == RuleRec(name)
       r == E(rule.exp, q, <<>>, sd, d - 1) IN
-  IF Abort(r) THEN r
+  IF r.k = "kosem" THEN F                                             \* FailedSemantics -> an ordinary failure of this rule
+  ELSE IF Abort(r) THEN r
   ELSE IF r.k # "ok" THEN F
   ELSE LET ns  == IF Strip(rule.exp).op = "alt" THEN r.ns ELSE WithDefaults(r.ns, rule.exp)
            val == IF AstHas(ns, "@") THEN AstGet(ns, "@")
